@@ -13,70 +13,75 @@ type precParser struct {
 	toks        []int
 	pos         int
 	rightAsLeft bool
-	fail        bool
 }
 
-func (p *precParser) binary(kind int) (int, *Prod) {
-	for i := range p.g.Rules[0].Prods {
-		pr := &p.g.Rules[0].Prods[i]
-		if len(pr.Terms) == 3 && pr.Terms[0].Kind == NT && pr.Terms[1].Kind == Tok && pr.Terms[2].Kind == NT && pr.Terms[1].ID == kind && pr.Assoc != 0 {
+func isBinary(ri int, pr *Prod) bool {
+	return len(pr.Terms) == 3 && pr.Assoc != 0 && pr.Terms[0].Kind == NT && pr.Terms[0].ID == ri &&
+		pr.Terms[1].Kind == Tok && pr.Terms[2].Kind == NT && pr.Terms[2].ID == ri
+}
+
+func (p *precParser) binary(ri, kind int) (int, *Prod) {
+	for i := range p.g.Rules[ri].Prods {
+		pr := &p.g.Rules[ri].Prods[i]
+		if isBinary(ri, pr) && pr.Terms[1].ID == kind {
 			return i, pr
 		}
 	}
 	return -1, nil
 }
 
-func (p *precParser) primary() string {
-	if p.pos >= len(p.toks) {
-		p.fail = true
-		return ""
-	}
-	for i := range p.g.Rules[0].Prods {
-		pr := &p.g.Rules[0].Prods[i]
-		if len(pr.Terms) == 0 || pr.Terms[0].Kind != Tok || pr.Terms[0].ID != p.toks[p.pos] {
+// alt tries the non-binary productions of a rule in order (with backtracking).
+func (p *precParser) alt(ri int) (string, bool) {
+	for i := range p.g.Rules[ri].Prods {
+		pr := &p.g.Rules[ri].Prods[i]
+		if isBinary(ri, pr) {
 			continue
 		}
 		save := p.pos
 		s := fmt.Sprintf("(%d", i)
 		ok := true
-		for ti, t := range pr.Terms {
+		for _, t := range pr.Terms {
 			if t.Kind == Tok {
 				if p.pos < len(p.toks) && p.toks[p.pos] == t.ID {
 					s += fmt.Sprintf(" t%d", p.pos)
 					p.pos++
-				} else {
-					ok = false
-					break
+					continue
 				}
-			} else {
-				_ = ti
-				sub := p.expr(0, false)
-				if p.fail {
-					return ""
-				}
-				s += " " + sub
+				ok = false
+				break
 			}
+			if t.Kind != NT || t.Card != One {
+				ok = false
+				break
+			}
+			sub, sok := p.rule(t.ID, 0, false)
+			if !sok {
+				ok = false
+				break
+			}
+			s += " " + sub
 		}
 		if ok {
-			return s + ")"
+			return s + ")", true
 		}
 		p.pos = save
 	}
-	p.fail = true
-	return ""
+	return "", false
 }
 
-// expr parses operators of level >= min (> min when strict).
-func (p *precParser) expr(min int, strict bool) string {
-	lhs := p.primary()
-	if p.fail {
-		return ""
+// rule parses one rule; for a rule with qualified binary alternatives it
+// climbs operators of level >= min (> min when strict).
+func (p *precParser) rule(ri, min int, strict bool) (string, bool) {
+	lhs, ok := p.alt(ri)
+	if !ok {
+		return "", false
 	}
 	for p.pos < len(p.toks) {
-		pi, pr := p.binary(p.toks[p.pos])
+		pi, pr := p.binary(ri, p.toks[p.pos])
 		if pr == nil || pr.Prec < min || (strict && pr.Prec == min) {
 			break
 		}
+		save := p.pos
 		op := p.pos
 		p.pos++
 		// left: the right operand takes only tighter operators; right: also equal ones
@@ -84,19 +89,20 @@ func (p *precParser) expr(min int, strict bool) string {
 		if pr.Assoc == 2 && !p.rightAsLeft {
 			rstrict = false
 		}
-		rhs := p.expr(pr.Prec, rstrict)
-		if p.fail {
-			return ""
+		rhs, rok := p.rule(ri, pr.Prec, rstrict)
+		if !rok {
+			p.pos = save
+			break
 		}
 		lhs = fmt.Sprintf("(%d %s t%d %s)", pi, lhs, op, rhs)
 	}
-	return lhs
+	return lhs, true
 }
 
 func PrecTree(g *Grammar, toks []int, rightAsLeft bool) string {
 	p := &precParser{g: g, toks: toks, rightAsLeft: rightAsLeft}
-	s := p.expr(0, false)
-	if p.fail || p.pos != len(toks) {
+	s, ok := p.rule(0, 0, false)
+	if !ok || p.pos != len(toks) {
 		return ""
 	}
 	return s
